@@ -14,8 +14,8 @@ import TrionModel.Lemmas.SimpBasic
   evaluated — so the statement holds whenever these already evaluated results are fixed points of `evaluate`;
 * `plain_resumes`: this is so for the syntactic class `plain` (every sub-tree that is completed before the stop is a
   leaf, register-free arithmetic — whose value is a constant —, or `Rn + c` / `c + Rn`);
-* `resumes_false`: it is NOT so for every tree: `evaluate` is not idempotent on its own output
-  (`0 - (r1 - r0)` ↦ `-(r1 - r0)` ↦ `r0 - r1`).
+* `resumes_old_witness`: the tree on which it used to fail (`0 - (r1 - r0)` ↦ `-(r1 - r0)` ↦ `r0 - r1`, before the repair K5);
+  Lemmas/SimpNF.lean / SimpStableAll.lean now prove `Resumes` for every tree.
 -/
 namespace Trion.Simp
 open Trion
